@@ -165,6 +165,11 @@ func (a *archetype) getTableSlowPath(storage *storage, relations []relationID) (
 	if uint8(len(relations)) < a.numRelations {
 		panic("relation targets must be fully specified")
 	}
+	if len(relations) > 1 && !a.coversAllRelations(relations) {
+		// The number of relations is sufficient, but a component is given more than once,
+		// so there is a relation component without target.
+		panic("relation targets must be fully specified")
+	}
 	index := a.componentsMap[relations[0].component.id]
 	tables, ok := a.relationTables[index][relations[0].target.id]
 	if !ok {
@@ -177,6 +182,25 @@ func (a *archetype) getTableSlowPath(storage *storage, relations []relationID) (
 		}
 	}
 	return nil, false
+}
+
+// coversAllRelations checks whether the given relations name at least as many
+// distinct components as the archetype has relation components.
+func (a *archetype) coversAllRelations(relations []relationID) bool {
+	distinct := uint8(0)
+	for i := range relations {
+		seen := false
+		for j := range i {
+			if relations[j].component == relations[i].component {
+				seen = true
+				break
+			}
+		}
+		if !seen {
+			distinct++
+		}
+	}
+	return distinct >= a.numRelations
 }
 
 // GetTables return all tables matching the first given relation, if any.
